@@ -23,6 +23,15 @@ CLAIMS = {
  "C08": dict(cat="model_checking", ref="6/C08", tech="TLC model checking of SluMem over every workspace length (USER) and failure position (SYSTEM) + exhaustive lwork sweep of the real ?gssvx with guard zones, every allocator event validated by TLC",
    text="Design level: TLC explores the transcribed allocator for every lwork in steps of one word, both alignments, all demand sequences, and shows StackSane/RegionsOK/WritesInside/ShortageReported/ExpandGrows (the pre-fix model, cfg MC_Mem_legacy, exhibits the violations that were then reproduced). Conformance: for small systems with fill estimates 1..8 the real driver is run for EVERY workspace length from one word to beyond the requirement x both alignments, each in its own process between guard zones; TLC validates each allocator event (stack accounting, regions, cursors, growth) and the outcome (guards intact; info > n or factors identical to the reference run; no crash/hang).",
    note="Trusted: guard zones (64 KiB each side) as the observer of out-of-workspace writes; SYSTEM-model failure injection through the USER_MALLOC seam. Four genuine defects found here were repaired by fix: commits (known_findings.jsonl)."),
+ "C05": dict(cat="model_checking", ref="6/C05", tech="TLC model checking of SluFactor/SluSolve (solves for N/T/C) + TLC trace validation of ?gssvx: exact op(A)X=B on D2, exponent-exact scaling clauses for A and B, side evaluator for the rounding slice",
+   text="Design level as C01 plus SolveCorrect for all three Trans values. Conformance: generated systems through ?gssvx over every Trans x Equil x NC/NR x IterRefine x orderings, with power-of-two row/column scalings that force each equed outcome; TLC checks op(A0) X = B0 exactly for the caller's original A and B, A' = diag(R) A diag(C) restricted to equed entry by entry (exponent arithmetic), B scaled by the matching factor only, padding untouched, factor clauses on the matrix that was actually factored.",
+   note="NR storage is treated as the documentation does (scalings apply to the transposed view). Complex/NR/CONJ is a known finding. Outside D2 the residual and factor inequalities are evaluated in rational arithmetic (ratcheck)."),
+ "C06": dict(cat="model_checking", ref="6/C06", tech="TLC enumerates all call histories (SluHist: Fact modes x value changes under the documented preconditions); each history is executed and every call validated by TLC as a fresh factorization of that call's matrix",
+   text="SluHist's reachable histories of length <= 4 (3616) are the test plan: DOFACT / SamePattern / SamePattern_SameRowPerm / FACTORED with value changes same, tiny perturbation, unrelated, rescaled, zeroed or shrunk old pivot. The harness keeps the caller objects alive across calls exactly as EXAMPLE/dlinsolx2-3 do; per call TLC checks the C02-C05 clauses for that call's matrix (pivot reuse exempt from diagonal preference only), column-order reuse, and that FACTORED leaves factors and A untouched and solves the unscaled system.",
+   note="quick tier samples 420 histories, thorough runs all of them in all types. Preconditions not met at run time (a singular intermediate result) end the history (Skip event)."),
+ "C18": dict(cat="model_checking", ref="6/C18", tech="SluScreen decision tables (TLA+) enumerated exhaustively by TLC; every single-argument corruption executed against every routine in four types; trace validation of info, byte-identity of caller objects, ledger",
+   text="The specification is the ordered decision table of each routine's header; TLC checks the tables' consistency and emits all 118 single-argument corruptions; each is applied to an otherwise valid call (factors, scalings, permutations in place) of ?gssv, ?gssvx, ?gsisx, ?gstrs, ?gsrfs, ?gscon, ?gsequ, sp_?trsv; TLC validates info = -(first offending position), that every caller-owned byte is unchanged and no allocation is retained.",
+   note="sp_?gemv/sp_?gemm have no info argument and are not covered; B->ncol < 0 is not a documented check of ?gstrs/?gsrfs and is not generated for them. Two defects found here were repaired (known_findings.jsonl)."),
 }
 
 def main():
